@@ -352,6 +352,7 @@ package main
 //@   ensures [C07] given_raised_by_admin_only: old((asUid in t.perUser) && !t.perUser[asUid].deleted && !hasO(t.perUser[asUid].modeGiven)) && (asUid in t.perUser) && t.perUser[asUid].modeGiven != old(t.perUser[asUid].modeGiven) ==> t.cat == types.TopicCatGrp && old((t.perUser[asUid].modeGiven & types.ModeApprove) != 0)
 //@   ensures [C07] join_gate: err == nil && (asUid in t.perUser) ==> hasJ(t.perUser[asUid].modeGiven) || !hasJ(t.perUser[asUid].modeWant)
 //@   ensures [C07] p2p_modes: t.cat == types.TopicCatP2P && (asUid in t.perUser) && t.perUser[asUid].modeWant != old(t.perUser[asUid].modeWant) ==> (t.perUser[asUid].modeWant & ^types.ModeCP2P) == 0 && (t.perUser[asUid].modeWant & types.ModeApprove) != 0
+//@   assert at call store.SubsPersistenceInterface.Create [C07] limit: t.cat == types.TopicCatGrp && !asChan && !old(asUid in t.perUser) ==> len(t.perUser) < globals.maxSubscriberCount
 //@   ensures [C07] sys_root_only: t.cat == types.TopicCatSys && !old((asUid in t.perUser) && !t.perUser[asUid].deleted) && pkt.AuthLvl != int(auth.LevelRoot) ==> err != nil && (asUid in t.perUser) == old(asUid in t.perUser)
 
 // {set sub} / invite / approval acting on another user's subscription.
@@ -408,3 +409,39 @@ package main
 //@   assert at call store.TopicsPersistenceInterface.Delete#2 [C06] offline_empty_p2p: tcat == types.TopicCatP2P && len(subs) == 0
 //@   assert at call store.TopicsPersistenceInterface.Delete#4 [C06] offline_last_p2p: tcat == types.TopicCatP2P && len(subs) < 2
 //@   assert at call store.TopicsPersistenceInterface.Delete#3 [C06] offline_owner_only: sub != nil && hasO(sub.ModeGiven & sub.ModeWant) && sub.User == asUid.String() && asUid == types.ParseUserId(msg.AsUser)
+
+// Only the owner changes a group topic's tags and its public / trusted description and default access.
+//@ func (t *Topic) replySetTags(sess *Session, asUid types.Uid, msg *ClientComMessage) (err error)
+//@   requires t != nil && sess != nil && msg != nil && msg.Set != nil
+//@   modifies inferred
+//@   ensures [C06] tags_owner_only: t.cat == types.TopicCatGrp && old(t.owner) != asUid ==> err != nil && ref(t.tags) == old(ref(t.tags)) && len(t.tags) == old(len(t.tags))
+//@   assert at call store.TopicsPersistenceInterface.Update [C06] tags_store_owner_only: t.cat == types.TopicCatGrp && t.owner == asUid
+
+//@ func (t *Topic) replySetDesc(sess *Session, asUid types.Uid, asChan bool, authLevel auth.Level, msg *ClientComMessage) (err error)
+//@   requires t != nil && sess != nil && msg != nil && msg.Set != nil
+//@   modifies inferred
+//@   ensures [C06] desc_owner_only: t.cat == types.TopicCatGrp && old(t.owner) != asUid ==> t.accessAuth == old(t.accessAuth) && t.accessAnon == old(t.accessAnon) && t.public == old(t.public) && t.trusted == old(t.trusted)
+//@   assert at call store.TopicsPersistenceInterface.Update [C06] desc_store_owner_only: t.cat == types.TopicCatGrp ==> t.owner == asUid
+
+// {set sub}: a request naming the requester (or nobody) acts on the requester's own subscription, any other on the
+// target's; whoever is neither is not touched.
+//@ func (t *Topic) replySetSub(sess *Session, pkt *ClientComMessage, asChan bool) (err error)
+//@   requires t != nil && sess != nil && pkt != nil && pkt.Set != nil && pkt.Set.Sub != nil
+//@   requires [C07] p2p_wf: t.cat == types.TopicCatP2P ==> (t.accessAuth & ^types.ModeCP2P) == 0 && (t.accessAnon & ^types.ModeCP2P) == 0 && (forall u types.Uid :: (u in t.perUser) ==> (t.perUser[u].modeGiven & ^types.ModeCP2P) == 0 && (t.perUser[u].modeGiven & types.ModeApprove) != 0)
+//@   requires [C06] owner_cached: (t.owner in t.perUser) ==> !t.perUser[t.owner].deleted && !t.perUser[t.owner].isChan && t.cat == types.TopicCatGrp
+//@   requires [C06] owner_known: t.owner == types.ParseUserId(pkt.AsUser) ==> (t.owner in t.perUser)
+//@   requires [C06] owner_grp_only: t.cat != types.TopicCatGrp ==> (forall u types.Uid :: (u in t.perUser) ==> !hasO(t.perUser[u].modeGiven))
+//@   requires [C06] defaults_no_owner: !hasO(t.accessAuth) && !hasO(t.accessAnon)
+//@   modifies inferred
+//@   ensures [C07] bystanders_untouched: forall u types.Uid :: u != types.ParseUserId(old(pkt.AsUser)) && u != types.ParseUserId(old(pkt.Set.Sub.User)) && u != old(t.owner) ==> (u in t.perUser) == old(u in t.perUser) && ((u in t.perUser) ==> t.perUser[u].modeWant == old(t.perUser[u].modeWant) && t.perUser[u].modeGiven == old(t.perUser[u].modeGiven))
+//@   ensures [C06] owner_moves_only_to_requester: t.owner != old(t.owner) ==> t.owner == types.ParseUserId(old(pkt.AsUser))
+
+// Session-specific topic names: "me" and "fnd" always denote the requester's own topics, a p2p name is derived from
+// exactly the requester and the named peer (never a third party, never the requester alone).
+//@ func (s *Session) expandTopicName(msg *ClientComMessage) (routeTo string, err *ServerComMessage)
+//@   requires s != nil && msg != nil
+//@   modifies inferred
+//@   ensures [C07] me_is_own: old(msg.Original) == "me" ==> err == nil && routeTo == old(msg.AsUser)
+//@   ensures [C07] fnd_is_own: old(msg.Original) == "fnd" ==> err == nil && routeTo == types.ParseUserId(old(msg.AsUser)).FndName()
+//@   ensures [C07] p2p_two_parties: hasPrefix(old(msg.Original), "usr") && err == nil ==> types.ParseUserId(old(msg.Original)) != types.ZeroUid && types.ParseUserId(old(msg.Original)) != types.ParseUserId(old(msg.AsUser))
+//@   assert at call types.Uid.P2PName [C07] p2p_from_both: $0 == types.ParseUserId(msg.AsUser) && $1 == types.ParseUserId(msg.Original) && hasPrefix(msg.Original, "usr")
